@@ -122,19 +122,29 @@ Proof.
 Qed.
 Print Assumptions C17_hex_perm_inverse.
 
-(* npz key scheme: for all tag names and every subset `on` of boundaries that carry orientation flags, the keys
+(* npz key scheme (with the optional key sort_t): for all tag names and every subset `on` of boundaries that carry orientation flags, the keys
    written by save_npz are read back by load_npz as exactly the boundary names and exactly the subdomain names (the
    fixed keys doflocs / t and the flag arrays are not mistaken for tags), and a boundary finds its flag array iff it
    was written *)
 Theorem C17_npz_keys_roundtrip :
-  forall (bn sn on : list String.string),
+  forall (bn sn on : list String.string) (unsorted : bool),
     let keys := gen_npz_fixed_keys ++ map (key_with_prefix gen_npz_save_b) bn
                                    ++ map (key_with_prefix gen_npz_save_s) sn
-                                   ++ map (key_with_prefix gen_npz_save_o) on in
+                                   ++ map (key_with_prefix gen_npz_save_o) on
+                                   ++ (if unsorted then [gen_npz_sort_t_key] else []) in
     decode_keys gen_npz_load_b keys = bn /\ decode_keys gen_npz_load_s keys = sn /\
-    forall n, In (key_with_prefix gen_npz_load_o n) keys <-> In n on.
+    (forall n, In (key_with_prefix gen_npz_load_o n) keys <-> In n on) /\
+    (In gen_npz_sort_t_key keys <-> unsorted = true).
 Proof. exact npz_keys_roundtrip. Qed.
 Print Assumptions C17_npz_keys_roundtrip.
+
+(* the optional key sort_t of to_dict / save_npz (written only when the flag differs from the class default, read back when
+   present, class default otherwise): the flag comes back for every class default and every value, so cells that are not
+   in ascending vertex order (oriented()) are not re-sorted on load and f2t, hence the meaning of the flags, is kept *)
+Theorem C17_sort_t_roundtrip :
+  forall default v : bool, gen_sort_t_load default (gen_sort_t_save default v) = v.
+Proof. exact gen_sort_t_roundtrip. Qed.
+Print Assumptions C17_sort_t_roundtrip.
 
 (* dict_roundtrip (to_dict / from_dict, hence JSON): for pairwise distinct boundary names every boundary comes back
    with its facet list and with exactly its orientation flags (none for unoriented ones) *)
